@@ -42,7 +42,7 @@ func (a *HTMLFragmentFormatter) Format(f *Fragment, orderedTermLocations TermLoc
 		if termLocation == nil {
 			continue
 		}
-		if termLocation.Start < curr {
+		if termLocation.Start < curr || termLocation.End < termLocation.Start {
 			continue
 		}
 		if termLocation.End > f.End {
